@@ -137,20 +137,20 @@ pub fn judge_pair(a: &Ent, b: &Ent, full: bool, l: &mut Local) {
             l.violation(&format!("cmp:not-antisymmetric:{rel}"), "cmp(a,b) is not the reverse of cmp(b,a)", || pair_case(&a.r, &b.r));
         }
     }
-    if a.h.partial_cmp(&b.h) != Some(got) {
-        l.violation("cmp:partial_cmp-differs", "partial_cmp != Some(cmp)", || pair_case(&a.r, &b.r));
-    }
-    // LowerName order/equality are consistent with Name
-    let lgot = a.low.cmp(&b.low);
-    if lgot != got {
-        let rel = relation(&a.r, &b.r);
-        l.violation(
-            &format!("lowername-cmp:{rel}:got-{}-name-{}", ord_name(lgot), ord_name(got)),
-            "LowerName::cmp is not consistent with Name::cmp",
-            || pair_case(&a.r, &b.r),
-        );
-    }
     if full {
+        if a.h.partial_cmp(&b.h) != Some(got) {
+            l.violation("cmp:partial_cmp-differs", "partial_cmp != Some(cmp)", || pair_case(&a.r, &b.r));
+        }
+        // LowerName order/equality are consistent with Name
+        let lgot = a.low.cmp(&b.low);
+        if lgot != got {
+            let rel = relation(&a.r, &b.r);
+            l.violation(
+                &format!("lowername-cmp:{rel}:got-{}-name-{}", ord_name(lgot), ord_name(got)),
+                "LowerName::cmp is not consistent with Name::cmp",
+                || pair_case(&a.r, &b.r),
+            );
+        }
         let leq = a.low == b.low;
         if leq != want_eq {
             let rel = relation(&a.r, &b.r);
